@@ -202,7 +202,7 @@ Allowed(e, pres, dirty, schemaKnown) ==
     [] ~e.method_ok -> Any4
     [] e.cls = "oversized" ->
          IF e.ep \in BodyEndpoints
-           THEN TooLarge \cup (IF e.ep # "init" /\ ~pres THEN Missing ELSE {})
+           THEN TooLarge \cup maybe4 \cup (IF e.ep # "init" /\ ~pres THEN Missing ELSE {})
            ELSE TooLarge \cup (IF e.ep = "healthz" \/ pres THEN Ok2 \cup Any5 ELSE Missing)
     [] e.ep = "healthz" -> Ok2
     [] e.ep = "init" ->
